@@ -393,3 +393,128 @@ def _entry_of(f, t, depth=0):
         inner = _entry_of(f, t[2], depth + 1)
         return inner
     return t
+
+
+@rule("R-ROT-ORTHOGONAL", ["C07"])
+def r_rot_orthogonal(cx):
+    """exact mode: the matrix built by rotation_matrix is a proper rotation, i.e. R * R^T = I and det R = +1 as
+    polynomial identities in (sin, cos) of the three angles modulo sin^2 + cos^2 = 1 (normal-form comparison)"""
+    from poly import Poly
+    name = "inner_op::helmert::rotation_matrix"
+    if not cx.f.has_fn(name):
+        cx.ob("R-ROT-ORTHOGONAL", "anchor", False, "anchor-missing: %s" % name)
+        return
+    f = cx.f.fn(name)
+    mats = []
+    for bb in sorted(f.reachable()):
+        if f.term(bb)["k"] == "return":
+            for leaf in _phi_leaves(f.local_value(0, f.end_point(bb))):
+                t = mir.strip_refs(leaf)
+                if t[0] == "agg" and t[1] == "array" and len(t[2]) == 3:
+                    mats.append(t)
+    if not mats:
+        cx.ob("R-ROT-ORTHOGONAL", "anchor", False, "anchor-missing: no 3x3 matrix returned")
+        return
+    syms = {}
+
+    def to_poly(t, exact, depth=0):
+        t = mir.strip_refs(t)
+        if depth > 60:
+            raise ValueError("too deep")
+        v = _num_const(t)
+        if v is not None:
+            return Poly.const(v)
+        if t[0] == "bin" and t[1] in ("Add", "Sub", "Mul"):
+            a, b = to_poly(t[2], exact, depth + 1), to_poly(t[3], exact, depth + 1)
+            return a + b if t[1] == "Add" else (a - b if t[1] == "Sub" else a * b)
+        if t[0] == "un" and t[1] == "Neg":
+            return -to_poly(t[2], exact, depth + 1)
+        if t[0] == "phi":
+            # the `if exact {..}` joins: operand 0 comes from the fall-through (not exact), the last from the exact branch
+            ops = list(t[2])
+            pick = _pick_branch(f, t, exact)
+            return to_poly(pick, exact, depth + 1)
+        if t[0] == "proj" and isinstance(t[2], tuple) and t[2][0] == "f" and mir.strip_refs(t[1])[0] == "call" and \
+                str(mir.strip_refs(t[1])[1]).endswith("::sin_cos"):
+            arg = mir.strip_refs(t[1])[2][0]
+            key = ("s" if t[2][1] == 0 else "c") + str(_angle_index(arg))
+            return Poly.sym(key)
+        # plain angle r[i] (small-angle mode: s = r, c = 1)
+        key = "r" + str(_angle_index(t))
+        return Poly.sym(key)
+
+    for exact in (True,):
+        for mi, m in enumerate(mats):
+            try:
+                M = [[to_poly(e, exact) for e in mir.strip_refs(row)[2]] for row in m[2]]
+            except Exception as e:
+                cx.ob("R-ROT-ORTHOGONAL", "matrix%d/extract" % mi, False,
+                      "the entries of the returned matrix could not be read as polynomials in sin/cos of the angles: %s" % e,
+                      cx.where(f.d["span"]))
+                continue
+            rules = {"c%d" % k: Poly.const(1) - Poly.sym("s%d" % k) * Poly.sym("s%d" % k) for k in range(3)}
+            ok = True
+            bad = None
+            for i in range(3):
+                for j in range(3):
+                    acc = Poly()
+                    for k in range(3):
+                        acc = acc + M[i][k] * M[j][k]
+                    acc = acc.reduce(rules)
+                    want = Poly.const(1 if i == j else 0)
+                    if not (acc == want):
+                        ok = False
+                        bad = (i, j, acc)
+            cx.ob("R-ROT-ORTHOGONAL", "matrix%d/RRt=I" % mi, ok,
+                  "exact mode, convention %d: R*R^T = I holds identically (9 polynomial identities modulo s^2+c^2=1)" % mi if ok
+                  else "exact mode, convention %d: R*R^T != I (entry %s,%s reduces to %s): the matrix is not a rotation, "
+                       "distances are not preserved for large angles" % (mi, bad[0], bad[1], str(bad[2])[:120]),
+                  cx.where(f.d["span"]))
+            det = (M[0][0] * (M[1][1] * M[2][2] - M[1][2] * M[2][1]) - M[0][1] * (M[1][0] * M[2][2] - M[1][2] * M[2][0])
+                   + M[0][2] * (M[1][0] * M[2][1] - M[1][1] * M[2][0])).reduce(rules)
+            okd = det == Poly.const(1)
+            cx.ob("R-ROT-ORTHOGONAL", "matrix%d/det=1" % mi, okd,
+                  "exact mode, convention %d: det R = +1 identically" % mi if okd else
+                  "exact mode, convention %d: det R is %s, not +1" % (mi, str(det)[:100]), cx.where(f.d["span"]))
+
+
+def _num_const(t):
+    from rules.projections import _num
+    return _num(t)
+
+
+def _angle_index(t):
+    """which of r[0], r[1], r[2] an angle term is"""
+    t = mir.strip_refs(t)
+    found = []
+
+    def visit(x):
+        if x[0] == "proj" and isinstance(x[2], tuple) and x[2][0] == "elem" and len(x[2]) == 2:
+            found.append(x[2][1])
+            return False
+        return True
+
+    mir.walk(t, visit)
+    if len(found) != 1:
+        raise ValueError("angle term not recognised: %s" % mir.show(t, maxd=3))
+    return found[0]
+
+
+def _pick_branch(f, phi, exact):
+    """for a join created by `if exact { .. }`: the operand defined inside the branch when exact, else the other"""
+    bb, l = phi[1]
+    preds = [p for p in f.pred[bb] if p in f.reachable()]
+    ops = list(phi[2])
+    if len(ops) != len(preds):
+        return ops[-1] if exact else ops[0]
+    # the predecessor dominated by the true side of a test of arg2 (`exact`)
+    for b2 in sorted(f.reachable()):
+        sw = f.term(b2)
+        if sw["k"] == "switch":
+            c = f.operand(sw["discr"], f.end_point(b2))
+            if c == ("arg", 2):
+                true_succ = sw["otherwise"]
+                for p, o in zip(preds, ops):
+                    if f.dominates(true_succ, p):
+                        return o if exact else [x for x in ops if x is not o][0]
+    return ops[-1] if exact else ops[0]
